@@ -305,7 +305,8 @@ def fit_case(draw, tier, kind, fd=False, negligible_x=False):
     easy = fam in ('exp1', 'exp', 'lin')
     opts['guess'] = 'default' if (easy and not fd and draw(st.integers(0, 2)) == 0) else 'near'
     opts['guess_fac'] = [draw(fl(0.93, 1.07)) for _ in range(npar)]
-    if kind == 'tls' and not fd and not negligible_x and draw(st.integers(0, 6)) == 0:
+    if kind == 'tls' and not fd and not negligible_x and fam != 'rational' and draw(st.integers(0, 6)) == 0:
+        # (not the rational family: a far start puts its pole into the data range - outside the 'well-conditioned regions' of the statement)
         # a start far from the solution: the fit may legitimately give up (not judged), but whatever it returns as a
         # result has to be a stationary point of the documented chi-square
         opts['guess'] = 'far'
